@@ -113,7 +113,7 @@ func runC19(t *rapid.T) {
 		}
 	}
 	tr.Scramble = scr
-	tr.Table = []string{"t", "tbl_1", "Tab", "v1.events", "a.b.c", "t.", "sch-1.t"}[rapid.IntRange(0, 6).Draw(t, "table")]
+	tr.Table = []string{"t", "tbl_1", "Tab", "v1.events", "a.b.c", "t.", "sch-1.t", "t%d", "100%", "a%sb%%"}[rapid.IntRange(0, 9).Draw(t, "table")]
 	conf = append(conf, qsql.Table(tr.Table))
 	cfg.ExecMode = rapid.IntRange(0, 2).Draw(t, "execmode")
 	cfg.NumInputUnknown = rapid.Bool().Draw(t, "numinput")
